@@ -151,6 +151,11 @@ func drawProgram(t *rapid.T) *program {
 	for _, n := range []string{"derived.gen.go.old", "derived.gen.go.bak", "derived.gen.go~", ".derived.gen.go.swp", "derived.gen.go.orig"} {
 		if rapid.IntRange(0, 2).Draw(t, "nearname") == 0 {
 			pr.files["p/"+n] = "the user's own file " + n + "\n"
+			if rapid.Bool().Draw(t, "nearname-generated") {
+				// a copy of an earlier generated file that the user keeps for reference: it looks like goderive's
+				// own output, it still is the user's file
+				pr.files["p/"+n] = "// Code generated by goderive DO NOT EDIT.\n\npackage p\n\n// kept for reference\nfunc deriveKeptForReference(a, b int) bool {\n\treturn a == b\n}\n"
+			}
 		}
 	}
 	pr.files["other/gram.y"] = "%% a grammar that some generator turned into a .go file\n"
